@@ -1,8 +1,8 @@
 #!/bin/bash
 # usage: dbg_mutant.sh <patch.diff> <prop> [tier]   — runs ./check <prop> from a private copy of /verif against /repo HEAD + patch
-set -e
 P=$1; PROP=$2; TIER=${3:-quick}
 WT=/tmp/wt/dbg-$$; VC=/tmp/verif-dbg-$$
+trap 'git -C /repo worktree remove --force $WT 2>/dev/null; rm -rf $VC $WT; git -C /repo worktree prune' EXIT
 git -C /repo worktree add -f --detach $WT HEAD >/dev/null 2>&1
 (cd $WT && git apply $P)
 rsync -a --delete --exclude .git /verif/ $VC/
